@@ -133,6 +133,7 @@ Definition var_classes : list (string * var_class) := [
   ("annotation/analyzer.go:Analyzer", AnalyzerDescriptor);
   ("annotation/map.go:EmptyVal", ImmutableAfterInit);
   ("config/config.go:_templHeaders", ImmutableAfterInit);
+  ("assertion/function/assertiontree/backprop.go:ErrFuncTooLarge", ImmutableAfterInit);
   ("annotation/map.go:annotationKeyword", ImmutableAfterInit);
   ("annotation/map.go:paramRegexStr", ImmutableAfterInit);
   ("annotation/map.go:resultRegexStr", ImmutableAfterInit);
@@ -192,12 +193,32 @@ Definition var_classes : list (string * var_class) := [
   ("util/typeshelper/typeshelper.go:BuiltinNew", ImmutableAfterInit)
 ].
 
+(* ---- ambient inputs: clocks, timers, deadlines, CPU count, environment, randomness, stack dumps ----
+   Every use in the source tree is listed in gen/Inventory.v (ambient_gen); each must be one of the two kinds below.
+   Anything else (a deadline on the analysis, a clock, a CPU count) makes the result depend on the machine and its
+   load, and is an unclassified site: the lemma below stops checking. *)
+Inductive ambient_class :=
+  | PresentationOnly       (* decides colours of the printed message only (NO_COLOR, TERM); documented *)
+  | OnlyInInternalError.   (* the stack dump inside an INTERNAL PANIC message, which C07 shows never to be produced *)
+
+Definition ambient_classes : list (string * ambient_class) := [
+  ("accumulation/analyzer.go:run:debug.Stack:1", OnlyInInternalError);
+  ("assertion/function/analyzer.go:analyzeFunc:debug.Stack:1", OnlyInInternalError);
+  ("assertion/function/functioncontracts/analyzer.go:collectFunctionContracts:debug.Stack:1", OnlyInInternalError);
+  ("config/config.go:defaultPrettyPrint:os.Getenv:1", PresentationOnly);
+  ("config/config.go:defaultPrettyPrint:os.Getenv:2", PresentationOnly);
+  ("util/analysishelper/analyzer.go:WrapRun:debug.Stack:1", OnlyInInternalError)
+].
+
 Definition classified {A} (table : list (string * A)) (s : string) : bool := existsb (fun e => String.eqb (fst e) s) table.
 
 Lemma map_ranges_classified : forallb (classified range_classes) map_ranges_gen = true.
 Proof. vm_compute. reflexivity. Qed.
 
 Lemma shared_writes_classified : forallb (classified write_classes) shared_writes_gen = true.
+Proof. vm_compute. reflexivity. Qed.
+
+Lemma ambient_classified : forallb (classified ambient_classes) ambient_gen = true.
 Proof. vm_compute. reflexivity. Qed.
 
 Lemma go_sites_expected : go_sites_gen = expected_go_sites.
